@@ -49,7 +49,7 @@ WINDOWS = ['hamming', 'hann', 'blackman', 'boxcar', 'kaiser']
 DTYPES = ['float64', 'float32', 'int16', 'complex128', 'complex64']
 FAMILIES = ['gauss', 'impulse', 'step', 'tone', 'ramp', 'const', 'quantised']
 KINDS = ['oneshot', 'compose', 'script']
-P_QUICK = [2, 4, 6, 8, 10, 12, 16, 24, 32, 50, 64, 100, 128, 256]
+P_QUICK = [2, 3, 4, 5, 6, 7, 8, 10, 12, 13, 16, 17, 24, 26, 32, 34, 50, 52, 64, 97, 100, 128, 256]
 P_THOROUGH = P_QUICK + [512, 1024]
 
 
@@ -58,7 +58,7 @@ def required(tier):
     b.update({f'dtype:{d}': 50 for d in DTYPES})
     b.update({f'window:{w}': 50 for w in WINDOWS})
     b.update({f'family:{f}': 20 for f in FAMILIES})
-    b.update({'taps:1': 30, 'taps:12': 30, 'branches:2': 20, 'branches:>=128': 20,
+    b.update({'taps:1': 30, 'taps:12': 30, 'branches:2': 20, 'branches:>=128': 20, 'branches:odd': 100, 'branches:prime-factor>=13': 100,
               'oneshot:ragged-length': 30, 'oneshot:cache-on': 30, 'oneshot:single-window': 5,
               'compose:exhaustive': 60, 'compose:sampled': 10, 'compose:starts-with-one-window': 200,
               'script:objects>=2': 60, 'script:same-config': 20, 'script:mixed-config': 20,
@@ -340,6 +340,8 @@ def prec(x):
 
 
 def expected(x, h, cfg, n0, n1, K=None):
+    if K is None:
+        K = cfg['P'] // 2          # odd branch counts: 'the lower half' is read as the first floor(P/2) channels (what is returned)
     E, S = rp.channelise(x, h, cfg['M'], cfg['P'], n0, n1, K)
     return E, prec(x) * rp.bound(S, cfg['M'], cfg['P'])
 
@@ -745,6 +747,10 @@ def run_case(c, R):
             R.bucket('branches:>=128')
         if cfg['P'] >= 512:
             R.bucket('branches:>=512')
+        if cfg['P'] % 2:
+            R.bucket('branches:odd')
+        if any(cfg['P'] % q == 0 for q in (13, 17, 97)):
+            R.bucket('branches:prime-factor>=13')
     R.bucket('input:complex' if c['dtype'].startswith('complex') else 'input:real')
     with np.errstate(all='ignore'):
         {'oneshot': run_oneshot, 'compose': run_compose, 'script': run_script}[c['kind']](c, ctx)
